@@ -44,3 +44,290 @@ Theorem C05_clean_reopen_identity_guarded :
   forall d : bytes, FileWal.recover_g walrev_fixed {| FileWal.data := d; FileWal.wal := [] |} = Some {| FileWal.data := d; FileWal.wal := [] |}.
 Proof. intros d. reflexivity. Qed.
 Print Assumptions C05_clean_reopen_identity_guarded.
+
+(* ======================= the collection layer (L2): storage-backed vectors =======================
+   Model: theories/Collections.v — vec.rs line by line as PROGRAMS over the storage interface (cprog: a tree
+   of Storage<D> calls branching on the storage's answers).  `cwp fl p sp Q` (CollWp.v): for every sequence of
+   answers the abstract record map of C04 (StorageSpec.spec_step; free only in the u64 index an insert returns)
+   accepts, p does not die and ends with a result and a map state satisfying Q.  `cwp_sound` transfers every
+   cwp statement to the model of storage.rs over a canonical byte store through C04_step_refines — so nothing
+   is assumed of the storage that C04 did not prove (C05_vec_history_on_storage_* below are such transfers).
+
+   vrep g h slots l   (CollVec.v) the representation invariant: the record g(index h) is
+                      le64 (len h) ++ concat slots ++ spare  (the spare capacity bytes are UNCONSTRAINED),
+                      slot i represents l[i] (for String: the slot is the index of a record le64 len ++ utf8 that
+                      the slot owns), len h = |l| <= capacity h, the index of the vector and the records owned by
+                      its slots are pairwise distinct
+   frame g g' F F'    the exact footprint change: records outside F and F' are untouched, records entering
+                      the footprint were free, records leaving it are freed (no leaks)
+   elem_law E         what is required of an element class (VecValue); proved for u64, i64, n raw inline bytes,
+                      MapValueState, String (CollElems.v) *)
+From Agdb Require Import Collections CollWp CollBytes CollVecBase CollVecOps CollVec CollVec2 CollElems CollVecHist.
+
+(* the reload: on every state satisfying the invariant, DbVec::from_storage(index) succeeds and returns a handle
+   with the same index and length for which the SAME slots represent the SAME list (its capacity is recomputed
+   from the record size — it over-counts by 8 / size elements — and is only required to be >= len) *)
+Theorem C05_vec_reload :
+  forall (T : Type) (E : cv_elem T) (L : elem_law E) (fl : bool) h slots l sp (Q : cres cv_vec -> spec -> Prop),
+    vrep T E L (hp sp) h slots l ->
+    (forall h', vrep T E L (hp sp) h' slots l -> cv_index h' = cv_index h -> cv_len h' = cv_len h -> Q (CrOk h') sp) ->
+    cwp fl (cv_from_storage T E (cv_index h)) sp Q.
+Proof. exact cv_from_storage_spec. Qed.
+Print Assumptions C05_vec_reload.
+
+(* EVERY history (no bound): push, replace, remove, swap, resize, reserve, shrink_to_fit, value, iteration, len,
+   interleaved at will with reloads (VoReload: the handle is dropped and rebuilt by from_storage) and with
+   optimize_storage / drop + open / backup + open of the storage underneath (VoMaint) — started in a state
+   satisfying the invariant with no transaction open, with representable values (op_ok) and a payload
+   8 + size * len that stays a u64 (ops_ok) — yields exactly the observations of the plain list `cl_run`, in which
+   reload and maintenance do nothing: a reloaded vector has the same length, the same elements, and every later
+   operation behaves identically.  At the end the invariant holds for the final list, no transaction is open, and
+   the history touched exactly its footprint (frame: no other record of the storage is read as changed, none is
+   leaked).  Errors: only `Index out of bounds`, exactly when the list operation is out of range. *)
+Theorem C05_vec_history :
+  forall (T : Type) (E : cv_elem T) (L : elem_law E) (fl : bool) ops h slots l sp
+         (Q : cres (cv_vec * list (cv_obs T)) -> spec -> Prop),
+    vrep T E L (hp sp) h slots l -> sdepth sp = 0 -> ops_ok T E L l ops ->
+    (forall h' slots' sp', vrep T E L (hp sp') h' slots' (fst (cl_run l ops)) -> cv_index h' = cv_index h -> sdepth sp' = 0 ->
+        frame (hp sp) (hp sp') (foot T E L h slots) (foot T E L h' slots') -> Q (CrOk (h', snd (cl_run l ops))) sp') ->
+    cwp fl (cv_run T E h ops) sp Q.
+Proof. exact cv_run_spec. Qed.
+Print Assumptions C05_vec_history.
+
+(* the same on the model of storage.rs itself (C04), file-like and memory-like, from a fresh storage: DbVec::new
+   followed by any history either dies by a panic of the storage (a request beyond 2^64 bytes) or returns the
+   list's observations, in a storage state that refines an abstract map in which the invariant holds *)
+Theorem C05_vec_history_on_storage_u64 :
+  forall (ops : store_ops cdata) (fl : bool), kind ops fl ->
+  forall l : list (cv_op N), ops_ok N ce_u64 law_u64 [] l ->
+    let r := cp_run (st_step cdata ops) (h <~ cv_new ;; cv_run N ce_u64 h l) s_init in
+    snd r = CrDead \/
+    exists h' sp' slots', snd r = CrOk (h', snd (cl_run [] l)) /\ Rel (fst r) sp' /\
+                          vrep N ce_u64 law_u64 (hp sp') h' slots' (fst (cl_run [] l)).
+Proof. exact (cv_history_on_storage N ce_u64 law_u64). Qed.
+Print Assumptions C05_vec_history_on_storage_u64.
+
+Theorem C05_vec_history_on_storage_i64 :
+  forall (ops : store_ops cdata) (fl : bool), kind ops fl ->
+  forall l : list (cv_op Z), ops_ok Z ce_i64 law_i64 [] l ->
+    let r := cp_run (st_step cdata ops) (h <~ cv_new ;; cv_run Z ce_i64 h l) s_init in
+    snd r = CrDead \/
+    exists h' sp' slots', snd r = CrOk (h', snd (cl_run [] l)) /\ Rel (fst r) sp' /\
+                          vrep Z ce_i64 law_i64 (hp sp') h' slots' (fst (cl_run [] l)).
+Proof. exact (cv_history_on_storage Z ce_i64 law_i64). Qed.
+Print Assumptions C05_vec_history_on_storage_i64.
+
+(* String elements live out of line (one record each, owned by the slot) *)
+Theorem C05_vec_history_on_storage_string :
+  forall (ops : store_ops cdata) (fl : bool), kind ops fl ->
+  forall l : list (cv_op bytes), ops_ok bytes ce_string law_string [] l ->
+    let r := cp_run (st_step cdata ops) (h <~ cv_new ;; cv_run bytes ce_string h l) s_init in
+    snd r = CrDead \/
+    exists h' sp' slots', snd r = CrOk (h', snd (cl_run [] l)) /\ Rel (fst r) sp' /\
+                          vrep bytes ce_string law_string (hp sp') h' slots' (fst (cl_run [] l)).
+Proof. exact (cv_history_on_storage bytes ce_string law_string). Qed.
+Print Assumptions C05_vec_history_on_storage_string.
+
+(* remove_from_storage frees exactly the footprint (the vector record and every record owned by a slot) *)
+Theorem C05_vec_remove_from_storage :
+  forall (T : Type) (E : cv_elem T) (L : elem_law E) (fl : bool) h slots l sp (Q : cres unit -> spec -> Prop),
+    vrep T E L (hp sp) h slots l ->
+    (forall sp', sdepth sp' = sdepth sp -> frame (hp sp) (hp sp') (foot T E L h slots) [] -> Q (CrOk tt) sp') ->
+    cwp fl (cv_remove_from_storage T E h) sp Q.
+Proof. exact cv_remove_from_storage_spec. Qed.
+Print Assumptions C05_vec_remove_from_storage.
+
+(* what makes the transfer possible: a cwp statement holds of every run on the storage model that does not panic *)
+Theorem C05_cwp_sound :
+  forall (ops : store_ops cdata) (fl : bool), kind ops fl ->
+  forall (A : Type) (p : cprog A) s sp (Q : cres A -> spec -> Prop),
+    Rel s sp -> cwp fl p sp Q ->
+    snd (cp_run (st_step cdata ops) p s) = CrDead \/
+    exists sp', Rel (fst (cp_run (st_step cdata ops) p s)) sp' /\ Q (snd (cp_run (st_step cdata ops) p s)) sp'.
+Proof. exact (fun ops fl K A => cwp_sound ops fl K (A := A)). Qed.
+Print Assumptions C05_cwp_sound.
+
+(* ---- non-vacuity: concrete histories on the storage model, by evaluation ---- *)
+Example C05_vec_sample_u64 :
+  let l := [VoPush 5; VoPush 6; VoPush 7; VoRemove 0; VoValues; VoReload; VoPush 9; VoValues; VoSwap 0 2; VoValues;
+            VoMaint SOptimize; VoMaint SReopen; VoReload; VoValues; VoReplace 7 1; VoResize 1 0; VoShrink; VoReload; VoValues] in
+  ops_ok N ce_u64 law_u64 [] l /\
+  exists h', snd (cp_run (st_step cdata ops_file) (h <~ cv_new ;; cv_run N ce_u64 h l) s_init) = CrOk (h', snd (cl_run [] l)) /\
+             snd (cl_run [] l) = [VbUnit; VbUnit; VbUnit; VbVal 5; VbVals [6; 7]; VbUnit; VbUnit; VbVals [6; 7; 9]; VbUnit;
+                                  VbVals [9; 7; 6]; VbUnit; VbUnit; VbUnit; VbVals [9; 7; 6]; VbErr CvIndex; VbUnit; VbUnit; VbUnit; VbVals [9]].
+Proof.
+  split.
+  - cbn [ops_ok cl_step fst op_ok law_u64 inline_law el_valid fits ce_size ce_u64]. unfold lenN. cbn. repeat split; lia.
+  - eexists. split; vm_compute; reflexivity.
+Qed.
+Print Assumptions C05_vec_sample_u64.
+
+Example C05_vec_sample_string :
+  let l := [VoPush [x41]; VoPush [x42; x43]; VoPush []; VoRemove 0; VoReload; VoPush [x44]; VoSwap 0 2; VoMaint SReopenCopy;
+            VoReload; VoReplace 1 [x45]; VoResize 1 []; VoValues] in
+  exists h', snd (cp_run (st_step cdata ops_mem) (h <~ cv_new ;; cv_run bytes ce_string h l) s_init) = CrOk (h', snd (cl_run [] l)) /\
+             last (snd (cl_run [] l)) VbUnit = VbVals [[x44]].
+Proof. eexists. split; vm_compute; reflexivity. Qed.
+Print Assumptions C05_vec_sample_string.
+
+(* ======================= the collection layer (L2): map data, graph data, root record =======================
+   mrep g d slots.. t   (CollMap.v) DbMapData: the index record g(index d) = le64 len ++ le64 states ++ le64 keys ++
+                        le64 values, the three vectors (states: MapValueState, keys, values) each satisfying vrep for
+                        the corresponding list of the table t, all footprints pairwise disjoint, cached len = t's len,
+                        the three lists of one length (= capacity)
+   grep g d slots a     (CollGraph.v) GraphDataStorage: the record with the four vector indexes and four DbVec<i64>
+                        representing the slot arrays a (from, to, from_meta, to_meta — the arrays of Graph.v), disjoint *)
+From Agdb Require Import CollSep CollMap CollMapHist CollGraph CollGraphNew CollAgree OpenMap.
+
+(* (b) FULL for the MapData interface: EVERY history of set_state / set_key / set_value / set_len / resize (states,
+   keys, values in this order) / swap / shrink_to_fit / state / key / value / capacity / len, with reloads
+   (DbMapData::from_storage: the index record, then the three vectors) and maintenance of the storage at will, yields
+   the observations of the plain table `ct_run`, in which reload and maintenance do nothing; at the end `mrep` holds
+   for the final table.  The algorithms of multi_map.rs (MultiMapImpl: insert, insert_or_replace, remove_key,
+   remove_value, value, values, iteration, rehash) are written against exactly this interface (trait MapData) and
+   keep no state of their own, so on a reloaded map they compute what they compute on the live one: the reloaded
+   interface is extensionally the same (same answers to every state / key / value / capacity / len, same effect
+   of every mutator).  OpenMap.v (C19) is those algorithms on `ct_omap t`. *)
+Theorem C05_map_history :
+  forall (K V : Type) (EK : cv_elem K) (EV : cv_elem V) (LK : elem_law EK) (LV : elem_law EV) (kdef : K) (vdef : V),
+    el_valid LK kdef -> el_valid LV vdef ->
+  forall (fl : bool) ops d ss ks vs t sp (Q : cres (cm_data * list (cm_obs K V)) -> spec -> Prop),
+    mrep K V EK EV LK LV (hp sp) d ss ks vs t -> sdepth sp = 0 -> Forall (mop_ok K V EK EV LK LV) ops ->
+    (forall d' ss' ks' vs' sp', mrep K V EK EV LK LV (hp sp') d' ss' ks' vs' (fst (ct_run K V kdef vdef t ops)) ->
+        cm_index d' = cm_index d -> sdepth sp' = 0 ->
+        frame (hp sp) (hp sp') (mfoot K V EK EV LK LV d ss ks vs) (mfoot K V EK EV LK LV d' ss' ks' vs') ->
+        Q (CrOk (d', snd (ct_run K V kdef vdef t ops))) sp') ->
+    cwp fl (cm_run K V EK EV kdef vdef d ops) sp Q.
+Proof. exact cm_run_spec. Qed.
+Print Assumptions C05_map_history.
+
+(* the reload alone: the same table through the reloaded interface *)
+Theorem C05_map_reload :
+  forall (fl : bool) (K V : Type) (EK : cv_elem K) (EV : cv_elem V) (LK : elem_law EK) (LV : elem_law EV) d ss ks vs t sp,
+    mrep K V EK EV LK LV (hp sp) d ss ks vs t ->
+    cwp fl (cm_from_storage K V EK EV (cm_index d)) sp
+        (fun r sp' => exists d', r = CrOk d' /\ sp' = sp /\ mrep K V EK EV LK LV (hp sp) d' ss ks vs t).
+Proof. exact map_loads. Qed.
+Print Assumptions C05_map_reload.
+
+(* on the model of storage.rs, from DbMapData::new on a fresh storage; instances: <u64,u64> (e.g. ids) and
+   <String,u64> (the alias map's key type: every key is an out-of-line record owned by its slot) *)
+Theorem C05_map_history_on_storage_u64 :
+  forall (ops : store_ops cdata) (fl : bool), kind ops fl ->
+  forall l : list (cm_op N N), Forall (mop_ok N N ce_u64 ce_u64 law_u64 law_u64) l ->
+    let r := cp_run (st_step cdata ops) (d <~ cm_new ;; cm_run N N ce_u64 ce_u64 0 0 d l) s_init in
+    snd r = CrDead \/
+    exists d' sp' ss ks vs, snd r = CrOk (d', snd (ct_run N N 0 0 (ct_empty N N) l)) /\ Rel (fst r) sp' /\
+       mrep N N ce_u64 ce_u64 law_u64 law_u64 (hp sp') d' ss ks vs (fst (ct_run N N 0 0 (ct_empty N N) l)).
+Proof. exact (cm_history_on_storage N N ce_u64 ce_u64 law_u64 law_u64 0 0 eq_refl eq_refl). Qed.
+Print Assumptions C05_map_history_on_storage_u64.
+
+Theorem C05_map_history_on_storage_string :
+  forall (ops : store_ops cdata) (fl : bool), kind ops fl ->
+  forall l : list (cm_op bytes N), Forall (mop_ok bytes N ce_string ce_u64 law_string law_u64) l ->
+    let r := cp_run (st_step cdata ops) (d <~ cm_new ;; cm_run bytes N ce_string ce_u64 [] 0 d l) s_init in
+    snd r = CrDead \/
+    exists d' sp' ss ks vs, snd r = CrOk (d', snd (ct_run bytes N [] 0 (ct_empty bytes N) l)) /\ Rel (fst r) sp' /\
+       mrep bytes N ce_string ce_u64 law_string law_u64 (hp sp') d' ss ks vs (fst (ct_run bytes N [] 0 (ct_empty bytes N) l)).
+Proof. exact (cm_history_on_storage bytes N ce_string ce_u64 law_string law_u64 [] 0 (conj eq_refl eq_refl) eq_refl). Qed.
+Print Assumptions C05_map_history_on_storage_string.
+
+(* (c) FULL for the GraphData interface: EVERY history of set / get of from, to, from_meta, to_meta at a graph index,
+   grow (four pushes), shrink_to_fit, capacity, with reloads (GraphDataStorage::from_storage) and maintenance of
+   the storage at will, yields the observations of the four plain arrays (ga_run; node_count / free_index are reads
+   of to_meta[0] / from_meta[0]); the algorithms of graph.rs (GraphImpl) are written against this interface (trait
+   GraphData) and keep no state of their own: Graph.v (C08) is those algorithms on the arrays. *)
+Theorem C05_graph_history :
+  forall (fl : bool) ops d s a sp (Q : cres (cg_data * list cg_obs) -> spec -> Prop),
+    grep (hp sp) d s a -> sdepth sp = 0 -> gops_ok a ops ->
+    (forall d' s' sp', grep (hp sp') d' s' (fst (ga_run a ops)) -> cg_index d' = cg_index d -> sdepth sp' = 0 ->
+        frame (hp sp) (hp sp') (gfoot d s) (gfoot d' s') -> Q (CrOk (d', snd (ga_run a ops))) sp') ->
+    cwp fl (cg_run d ops) sp Q.
+Proof. exact cg_run_spec. Qed.
+Print Assumptions C05_graph_history.
+
+(* from GraphDataStorage::new (arrays [0] [0] [i64::MIN] [0]) on the model of storage.rs *)
+Theorem C05_graph_history_on_storage :
+  forall (ops : store_ops cdata) (fl : bool), kind ops fl ->
+  forall l : list cg_op, gops_ok ga_init l ->
+    let r := cp_run (st_step cdata ops) (d <~ cg_new ;; cg_run d l) s_init in
+    snd r = CrDead \/
+    exists d' sp' s, snd r = CrOk (d', snd (ga_run ga_init l)) /\ Rel (fst r) sp' /\ grep (hp sp') d' s (fst (ga_run ga_init l)).
+Proof. exact cg_history_on_storage. Qed.
+Print Assumptions C05_graph_history_on_storage.
+
+(* the root record (DbStorageIndex at storage index 1): what try_new_with_storage stores is what the next open
+   reads, for every record map in which record 1 holds it — hence after reopen / optimize / backup (L1) too.
+   PARTIAL as a statement about DbImpl: the composition root -> graph + aliases (two maps) + indexes (a vector of
+   (value index, multi-map index) pairs) + values (a vector of vector indexes) into ONE invariant of the whole
+   database file is not assembled; each component is covered by the theorems above. *)
+Theorem C05_root_roundtrip_partial :
+  forall (fl : bool) r,
+    cr_u64 r ->
+    (forall x sp (Q : cres unit -> spec -> Prop), hp sp 1 = Some x -> lenN x = 48 ->
+       (forall sp', heq (hp sp') (hupd (hp sp) 1 (cr_ser r)) -> sdepth sp' = sdepth sp -> Q (CrOk tt) sp') ->
+       cwp fl (cr_store r) sp Q) /\
+    (forall sp (Q : cres cr_root -> spec -> Prop), hp sp 1 = Some (cr_ser r) -> Q (CrOk r) sp -> cwp fl cr_load sp Q).
+Proof. intros fl r Hb. split; [intros x sp Q; apply cr_store_spec|intros sp Q Hg; apply cr_load_spec; assumption]. Qed.
+Print Assumptions C05_root_roundtrip_partial.
+
+(* ---- non-vacuity ---- *)
+Example C05_map_sample_string :
+  let l : list (cm_op bytes N) :=
+           [MoResize 3; MoSetKey 1 [x41; x42]; MoSetState 1 StValid; MoSetValue 1 7; MoSetLen 1;
+            MoReload; MoSwap 1 2; MoMaint SOptimize; MoMaint SReopen; MoReload;
+            MoKey 2; MoState 2; MoValue 2; MoCapLen; MoKey 5] in
+  exists d', snd (cp_run (st_step cdata ops_file) (d <~ cm_new ;; cm_run bytes N ce_string ce_u64 [] 0 d l) s_init)
+               = CrOk (d', snd (ct_run bytes N [] 0 (ct_empty bytes N) l)) /\
+             skipn 10 (snd (ct_run bytes N [] 0 (ct_empty bytes N) l)) =
+               [MbKey [x41; x42]; MbState StValid; MbVal 7; MbNums 3 1; MbErr CvIndex].
+Proof. eexists. split; vm_compute; reflexivity. Qed.
+Print Assumptions C05_map_sample_string.
+
+Example C05_graph_sample :
+  let l := [GoGrow; GoGrow; GoSet GfFrom 1 (-1); GoSet GfToMeta 0 1; GoReload; GoMaint SOptimize; GoMaint SReopenCopy; GoReload;
+            GoGet GfFrom (-1); GoGet GfToMeta 0; GoGet GfFromMeta 0; GoCap; GoGet GfTo 3] in
+  exists d', snd (cp_run (st_step cdata ops_mem) (d <~ cg_new ;; cg_run d l) s_init) = CrOk (d', snd (ga_run ga_init l)) /\
+             skipn 8 (snd (ga_run ga_init l)) = [GbVal (-1); GbVal 1; GbVal cg_i64_min; GbNum 3; GbErr CvIndex].
+Proof. eexists. split; vm_compute; reflexivity. Qed.
+Print Assumptions C05_graph_sample.
+
+(* ---- vectors of database values (db_index.rs: VecValue for DbValue; db_key_value.rs: VecValue for DbKeyValue) ----
+   The slot is the 16-byte value index of C12 (values of up to 15 bytes inline, everything longer and all vectors in
+   ONE record owned by the slot), a key-value pair is two of them.  CollValuesProofs.v derives `elem_law` for both from
+   the theorems of C12 (C12_roundtrip through the bounds checks of the current load_db_value, the shape of the index
+   store_db_value produces, C12_remove_frees_exactly) — so C05_vec_history holds for DbVec<DbValue> (the key vectors of
+   the index multi-maps) and DbVec<DbKeyValue> (the property lists of the elements); here on the model of storage.rs.
+   Values must be `wf_value` (what a Rust program can hold: i64 range, valid UTF-8, lengths < 2^60). *)
+From Agdb Require Import DbValue ValueIndex CollValues CollValuesProofs.
+
+Theorem C05_vec_history_on_storage_dbvalue :
+  forall (ops : store_ops cdata) (fl : bool), StorageProofs.kind ops fl ->
+  forall l : list (cv_op dbvalue), ops_ok dbvalue ce_dbvalue law_dbvalue [] l ->
+    let r := cp_run (st_step cdata ops) (h <~ cv_new ;; cv_run dbvalue ce_dbvalue h l) s_init in
+    snd r = CrDead \/
+    exists h' sp' slots', snd r = CrOk (h', snd (cl_run [] l)) /\ Rel (fst r) sp' /\
+                          vrep dbvalue ce_dbvalue law_dbvalue (hp sp') h' slots' (fst (cl_run [] l)).
+Proof. exact (cv_history_on_storage dbvalue ce_dbvalue law_dbvalue). Qed.
+Print Assumptions C05_vec_history_on_storage_dbvalue.
+
+Theorem C05_vec_history_on_storage_dbkv :
+  forall (ops : store_ops cdata) (fl : bool), StorageProofs.kind ops fl ->
+  forall l : list (cv_op (dbvalue * dbvalue)), ops_ok (dbvalue * dbvalue) ce_dbkv law_dbkv [] l ->
+    let r := cp_run (st_step cdata ops) (h <~ cv_new ;; cv_run (dbvalue * dbvalue) ce_dbkv h l) s_init in
+    snd r = CrDead \/
+    exists h' sp' slots', snd r = CrOk (h', snd (cl_run [] l)) /\ Rel (fst r) sp' /\
+                          vrep (dbvalue * dbvalue) ce_dbkv law_dbkv (hp sp') h' slots' (fst (cl_run [] l)).
+Proof. exact (cv_history_on_storage (dbvalue * dbvalue) ce_dbkv law_dbkv). Qed.
+Print Assumptions C05_vec_history_on_storage_dbkv.
+
+(* non-vacuity: a 16-byte string (out of line) and an inline integer as a pair, replaced, reloaded, removed *)
+Example C05_vec_sample_dbkv :
+  let big := DString [x30; x31; x32; x33; x34; x35; x36; x37; x38; x39; x61; x62; x63; x64; x65; x66] in
+  let l := [VoPush (big, DI64 (-1)); VoPush (DU64 7, DVecI64 [1; 2]%Z); VoReload; VoMaint SOptimize; VoMaint SReopen; VoReload;
+            VoReplace 0 (DString [x41], big); VoSwap 0 1; VoValues; VoRemove 0; VoValues] in
+  exists h', snd (cp_run (st_step cdata ops_file) (h <~ cv_new ;; cv_run (dbvalue * dbvalue) ce_dbkv h l) s_init)
+               = CrOk (h', snd (cl_run [] l)) /\
+             last (snd (cl_run [] l)) VbUnit = VbVals [(DString [x41], big)].
+Proof. eexists. split; vm_compute; reflexivity. Qed.
+Print Assumptions C05_vec_sample_dbkv.
